@@ -16,8 +16,8 @@ func oracleCleanName(n string) (string, bool) {
 	if n == "" || !isASCII(n) {
 		return "", false
 	}
-	c, ok := oraclePrefix(n)
-	if !ok || c == "/" || !okPath(c) {
+	c, ok := oracleLexClean(n)
+	if !ok || !denotedPath(c) {
 		return "", false
 	}
 	return c, true
